@@ -155,10 +155,11 @@ func init() {
 			"(R-SCOPEPAIR/evaluator); break/return signals of a block are inspected or passed on, loops convert a break into a plain result and " +
 			"pass a return on, calls unwrap the return signal, a zero step is rejected before the first iteration, the range operand is evaluated " +
 			"once (R-SIGNAL); every loop iteration re-evaluates its condition block through eval (R-YIELD loop clause); the map ranger iterates a " +
-			"private snapshot (R-FRESH).",
+			"private snapshot and every loop activation has iteration state of its own (R-FRESH); a number of the program becomes a loop count or index only through a NaN/fraction-safe conversion (R-F2I); " +
+			"the loop variable enters the static scope after the range operands are parsed (R-DECLCHECK).",
 		NotDecided:  "The arithmetic of numeric ranges and which elements are visited; the parser's static scope tracking (see C05).",
 		Assumptions: []string{},
-		Rules:       []*Rule{ruleScopePairEval, ruleSignal, ruleFresh, ruleScopePairParser, ruleNaNGuard},
+		Rules:       []*Rule{ruleScopePairEval, ruleSignal, ruleFresh, ruleScopePairParser, ruleNaNGuard, f2iRule("pkg/evaluator", 4), ruleDeclCheck},
 	})
 }
 
